@@ -96,6 +96,28 @@ func init() {
 			kr("heap_range", "any", 6, 1, 5)
 			kr("insertion_range", "any", 5, 1, 5)
 			kr("insertion_range", "any", 6, 2, 5)
+			// quicksort partition of 14 rows (the smallest even range that reaches doPivot) on inputs made
+			// of four constant runs with symbolic lengths over three ranks
+			kb := func(kernel, vs string, n int) {
+				jobs = append(jobs, Job{Harness: "VX_C03_kernel", Params: P("kernel", kernel, "mode", "blocks", "vs", vs, "n", itoa(n)), MaxPaths: 400000})
+			}
+			perms := []string{"012", "021", "102", "120", "201", "210"}
+			for _, p := range perms {
+				kb("pivot", p+p[2:], 14)
+				kb("pivot", p+p[:1], 14)
+			}
+			if tier == "thorough" {
+				for v := 0; v < 81; v++ {
+					vs := string([]byte{byte('0' + v%3), byte('0' + v/3%3), byte('0' + v/9%3), byte('0' + v/27%3)})
+					kb("pivot", vs, 16)
+					kb("sort", vs, 14)
+					if v%3 != v/3%3 && v/3%3 != v/9%3 {
+						kb("pivot", vs, 13)
+						kb("pivot", vs, 20)
+						kb("sort", vs, 17)
+					}
+				}
+			}
 			if tier == "thorough" {
 				kr("quick0_range", "binary", 15, 1, 14)
 				kr("heap_range", "any", 7, 2, 7)
@@ -110,7 +132,8 @@ func init() {
 				k("shell", "any", 6)
 				k("shell", "distinct", 7)
 				k("heap", "distinct", 7)
-				k("pivot", "ternary", 13)
+				k("pivot", "ternary", 9)
+				k("pivot", "ternary", 10)
 				k("pivot", "binary", 15)
 				k("sort", "binary", 14)
 				k("sort", "binary", 16)
@@ -123,12 +146,12 @@ func init() {
 		},
 		Bounds: func(tier string) string {
 			if tier == "thorough" {
-				return "Sort end to end: 1-2 keys of all five types, all Reverse/NullLast combinations, n<=4 rows of P<=5 (general symbolic keys, nulls, index); sorter kernels under an abstract rank order: insertion/heap/shell n<=6 general, n=7 distinct ranks; doPivot n=13 ternary, n=15 binary; whole Sort n=13-16 binary ranks, n=20/41/44 with all ranks tied except 3 symbolic positions (ninther regime)"
+				return "Sort end to end: 1-2 keys of all five types, all Reverse/NullLast combinations, n<=4 rows of P<=5 (general symbolic keys, nulls, index); sorter kernels under an abstract rank order: insertion/heap/shell n<=6 general, n=7 distinct ranks; doPivot n<=10 ternary, n=13,15 binary (range 2..15 of 16 binary), and doPivot n=13,14,16,20 / whole sort n=14,17 on inputs made of four constant runs with symbolic lengths over three ranks (all 81 run-value patterns); whole Sort n=13-16 binary ranks, n=20/41/44 with all ranks tied except 3 symbolic positions (ninther regime)"
 			}
-			return "Sort end to end: 1-2 keys of all five types, all Reverse/NullLast combinations, n=3 rows of P<=4 (general symbolic keys, nulls, index); sorter kernels under an abstract rank order: insertion/heap/shell n<=5 general ranks, shell pass n=8 binary ranks"
+			return "Sort end to end: 1-2 keys of all five types, all Reverse/NullLast combinations, n=3 rows of P<=4 (general symbolic keys, nulls, index); sorter kernels under an abstract rank order: insertion/heap/shell n<=5 general ranks, shell pass n=8 binary ranks; doPivot on 14 rows made of four constant runs with symbolic lengths over three ranks (12 run-value patterns)"
 		},
-		Assume:   []string{"any strict weak order is a rank function (sorter kernels use symbolic integer ranks)", "restricted-key slices (binary/ternary/few) are decided completely inside the slice and are slices of the input space, not the whole of it"},
-		Outside:  []string{"general keys for n >= 7 (8) end to end", "doPivot with general keys for n >= 13", "ninther regime beyond 3 non-tied keys"},
+		Assume:   []string{"any strict weak order is a rank function (sorter kernels use symbolic integer ranks)", "restricted-key slices (binary/ternary/few/blocks) are decided completely inside the slice and are slices of the input space, not the whole of it"},
+		Outside:  []string{"general keys for n >= 7 (8) end to end", "doPivot with more than two distinct ranks for n >= 11 (3^n comparison outcomes: n=13 did not finish in 18 min; seeded change C03-4 lives there)", "ninther regime beyond 3 non-tied keys"},
 		MinReach: []string{"end"},
 		TVVectors: 3,
 	})
